@@ -3,6 +3,7 @@
 From Coq Require Import List Arith Bool.
 From LokyV Require Import Model.TokenFlow Proofs.TokenFlowInv Proofs.TokenFlowThm.
 From LokyV Require Lib.PoolLib Gen.Pool Model.Pool Proofs.PoolThm.
+From LokyV Require Lib.WorkerLib Gen.Worker Proofs.WorkerThm.
 Import ListNotations.
 
 (* a worker's idle time-out is not a step of the token flow: whatever the instants at which time-outs,
@@ -57,3 +58,22 @@ Print Assumptions C07_registered_job_always_has_a_worker_coming.
 Theorem C07_structure : Pool.clean_exit_reads_counters_after_the_pop_and_respawns_when_work_waits = true.
 Proof. reflexivity. Qed.
 Print Assumptions C07_structure.
+
+(* ---- inside the worker (Gen/Worker.v) ---- *)
+(* an idle worker leaves only if the management lock is free at that moment (nobody is spawning or resizing), it only probes the
+   lock (acquire immediately followed by release), announces its pid before it goes and waits for the hand-shake for a bounded time;
+   with the lock taken it sends nothing and goes back to the queue *)
+Theorem C07_idle_exit_protocol :
+  forall e, WorkerLib.get e = WorkerLib.GEmpty ->
+    (if WorkerLib.mgmt_free e then WorkerLib.wfin (WorkerThm.it e) = WorkerLib.FReturn
+     else WorkerLib.wfin (WorkerThm.it e) = WorkerLib.FContinue /\ WorkerLib.acts (WorkerThm.it e) = []) /\
+    (WorkerLib.wfin (WorkerThm.it e) = WorkerLib.FReturn -> WorkerLib.count WorkerLib.is_pid (WorkerLib.acts (WorkerThm.it e)) = 1) /\
+    WorkerLib.acquire_then_release (WorkerLib.acts (WorkerThm.it e)) = true /\ WorkerLib.holds_mgmt (WorkerThm.it e) = false /\
+    ~ In (WorkerLib.AWaitExit false) (WorkerLib.acts (WorkerThm.it e)).
+Proof.
+  intros e G. split; [apply WorkerThm.idle_exit_only_with_the_management_lock_free, G|].
+  split; [apply WorkerThm.clean_exit_iff_announced|].
+  destruct (WorkerThm.management_lock_is_only_probed e) as [A B]. repeat split; try assumption.
+  apply WorkerThm.handshake_wait_is_bounded. rewrite G. destruct (WorkerLib.psutil e && WorkerLib.leak e); reflexivity.
+Qed.
+Print Assumptions C07_idle_exit_protocol.
